@@ -164,10 +164,11 @@ def m {α : Type} : Re → Bytes → Bytes → K α → Option α
   | .cat a b, pre, s, k => m a pre s (fun pre' s' => m b pre' s' k)
   | .alt a b, pre, s, k => orElse (m a pre s k) (m b pre s k)
   | .rep a mn mx, pre, s, k =>
-    repMin (m a) mn pre s (fun pre' s' =>
-      match mx with
-      | none => repStar (m a) s'.length pre' s' k
-      | some M => repMax (m a) (M - mn) pre' s' k)
+    match mx with
+    | none => repMin (m a) mn pre s (fun pre' s' => repStar (m a) s'.length pre' s' k)
+    | some M =>
+      if M < mn then none
+      else repMin (m a) mn pre s (fun pre' s' => repMax (m a) (M - mn) pre' s' k)
   | .bot, pre, s, k => if pre.isEmpty then k pre s else none
   | .wordb, pre, s, k => if wordBefore pre != wordAfter s then k pre s else none
 
